@@ -92,10 +92,17 @@ structure FontIn where
   fdMatrices : List (List Rl) := []          -- CID-keyed fonts; missing entries: the default
 deriving Repr
 
-/-- `setDeltaF16`: `int32(x - prev)` with the subtraction in `funit.Int16` (int16) arithmetic -/
+/-- `setDeltaF16` (repaired, e13ef76): `int32(x) - prev` with `prev` the previous value as int32 — the
+plain difference of two int16 values, as TN5176 "delta" says -/
 def deltas : Int → List Int → List Operand
   | _, [] => []
-  | prev, x :: xs => .int (toI16 ((x - prev) % 65536).toNat) :: deltas x xs
+  | prev, x :: xs => .int (x - prev) :: deltas x xs
+
+/-- `setDeltaF16` before the repair: `int32(x - prev)` with the subtraction in `funit.Int16`
+arithmetic (the delta wrapped into int16) -/
+def deltasOld : Int → List Int → List Operand
+  | _, [] => []
+  | prev, x :: xs => .int (toI16 ((x - prev) % 65536).toNat) :: deltasOld x xs
 
 /-- `makePrivateDict` without opSubrs -/
 def makePrivateDict (p : PrivIn) (dw nw : Int) : List (Nat × List Operand) :=
